@@ -59,6 +59,7 @@ def guard_fixedtext(msg, caps, whole_fix):
 
 
 def run(c):
+    c.go2coq_sources = ["c03.go", "textmatch.go"]   # private translator build: another family's generator cannot break this check
     thorough = c.tier == "thorough"
     c.rule = ("direct: renderMessage (hook) on capture sets drawn from 10 name chains whose names prefix one another, in shuffled "
               "order, with typed-nil captures, templates from a token grammar ($name, $name.b, $namez, $$, $nope, lone $), with and "
